@@ -1,9 +1,7 @@
 (** C01 - generated module is complete Rust that compiles against wgpu 24 (partial: see DESIGN.md). *)
-From W2W Require Import Wf C15Spec C06Spec C07Premise C01Spec C01Proof C01More.
+From W2W Require Import Wf C15Spec C06Spec C07Premise C12Spec C01Spec C01Proof C01More C01Full.
 
-(** PARTIAL. The full statement would be [names_ok m o -> gen m .. = Ok out -> rust_wf out = true]; what is
-    proved so far is the literal-vs-declared-type clause of [rust_wf] (the other clauses are evaluated on every
-    real output, and the whole module is compiled by rustc in every run). *)
+(** The literal-vs-declared-type clause of [rust_wf] on its own (the full statement is [C01_holds] below). *)
 Theorem C01_holds_partial : forall m src inc o out_,
   wf_consts m = true -> gen m src inc o = Ok out_ -> forallb const_wt (o_consts out_) = true.
 Proof. exact consts_well_typed. Qed.
@@ -27,3 +25,18 @@ Theorem C01_holds_structure : forall m src inc o out_,
              (o_ventries out_) = true.
 Proof. exact C01_structure. Qed.
 Print Assumptions C01_holds_structure.
+
+(** The statement of C01 over the model, complete relative to [rust_wf] (the fragment of rustc's rules the parametric
+    parts of the output can violate; the fixed template text is compared token for token with Render.v and compiled for
+    real in every run): for every wf module whose constants / IO structs / vertex inputs / overrides / member and override
+    names are as naga's front end guarantees (all evaluated per case), and whose output is outside the known-finding
+    classes [kf_any] - the conditions on the SHADER'S OWN identifiers and member types: Rust keywords, names clashing with
+    generated items or template bindings or prelude names, derive bounds - the generated module is [rust_wf]: every
+    remaining conjunct (distinct struct / field / override-field / bind-group-field / attribute-table names, literals of
+    the declared type, every used type name resolving to a defined item) holds by construction of the generator. *)
+Theorem C01_holds : forall m src inc o out_,
+  wf m = true -> wf_consts m = true -> wf_io_structs m = true -> wf_vertex_inputs m = true ->
+  wf_overrides m = true -> wf_member_names m = true -> wf_override_names m = true ->
+  gen m src inc o = Ok out_ -> kf_any out_ = false -> rust_wf out_ = true.
+Proof. exact C01_full. Qed.
+Print Assumptions C01_holds.
